@@ -28,7 +28,9 @@ RULE = ("seeded streams, one per modelled function: Fraction(a,b) (ints, short d
         "on texts built from the grammar with deviations and on random strings over the regex alphabet; "
         "CreateFromFloat on decimals with 1..8 significant digits and exponents -9..5; FractionScalar conversion "
         "over ordered unit pairs of every quantity type of a private POSC database (all pairs in the thorough tier), "
-        "order/==/validity and the registered UnitDatabase.Convert path; distinct = distinct model line; "
+        "order/==/validity and the registered UnitDatabase.Convert path; direct calls of the classmethod "
+        "ConvertFractionValue(value, quantity type string | Quantity in from_unit / to_unit / a third unit, from_unit, to_unit) "
+        "over scale and offset units with number-only, fraction-only and mixed values; distinct = distinct model line; "
         "non-trivial = the real call returned a value")
 EXHAUSTIVE = {"quick": False, "thorough": False}
 ASSUMPTIONS = [
@@ -284,6 +286,14 @@ def c_fs(op, db="posc", **kw):
         else:
             line[k] = v
     line["_t"] = t
+    return line
+
+
+def c_cfv(q, frm, to, v, db="posc"):
+    """a direct call of the classmethod FractionScalar.ConvertFractionValue(v, q, frm, to)"""
+    qe = dict(t="qtype", s=str(sym(q["s"]))) if q["t"] == "qtype" else dict(t="quantity", cat=str(sym(q["cat"])), unit=str(sym(q["unit"])))
+    line = dict(op="cfv", db=db, q=qe, to=str(sym(to)), v=_fv_enc(v), _t=dict(db=db, q=q, to=to, v=v, **{"from": frm}))
+    line["from"] = str(sym(frm))
     return line
 
 
@@ -562,9 +572,49 @@ def build_lim_db():
     return db
 
 
+CFV_VALUES = [dict(n=_I(2), x=[1, 2]), dict(n=_I(10), x=[3, 4]), dict(n=_I(-5), x=[7, 8]), dict(n=_F(0.5), x=[3, 32]),  # mixed
+              dict(n=_I(7), x=[0, 1]), dict(n=_F(2.25), x=[0, 1]), dict(n=_I(-3), x=[0, 1]),                          # number only
+              dict(n=_I(0), x=[1, 2]), dict(n=_I(0), x=[-5, 16]), dict(n=_I(0), x=[7, 3])]                            # fraction only
+
+
+def s_cfv(ctx, rng, n):
+    """direct calls of the public classmethod ConvertFractionValue(value, quantity_or_quantity_type, from_unit, to_unit): the
+    second argument as a string and as Quantity objects in from_unit / to_unit / a third unit, any category of the type"""
+    aff_types = [qt for qt in ctx.types_with_cat if any(u in ctx.affine for u in ctx.units[qt])]
+    for _ in range(n):
+        qt = rng.choice(aff_types) if (aff_types and rng.random() < 0.35) else rng.choice(ctx.types_with_cat)
+        units = ctx.units[qt]
+        if qt in aff_types and rng.random() < 0.7:
+            au = [u for u in units if u in ctx.affine]
+            u = rng.choice(au if rng.random() < 0.6 else units)
+            v = rng.choice(au if rng.random() < 0.6 else units)
+        else:
+            u, v = rng.choice(units), rng.choice(units)
+        w = rng.choice(units)
+        cat = rng.choice(ctx.cats[qt])
+        val = rng.choice(CFV_VALUES) if rng.random() < 0.75 else g_fv(rng, ["int", "short", "dyadic", "zero"])
+        r = rng.random()
+        if r < 0.22:
+            q = dict(t="qtype", s=rng.choice([qt, qt, qt, cat, "no such quantity type", ""]))
+        elif r < 0.42:
+            q = dict(t="quantity", cat=cat, unit=u)
+        elif r < 0.70:
+            q = dict(t="quantity", cat=cat, unit=v)
+        elif r < 0.93:
+            q = dict(t="quantity", cat=cat, unit=w)
+        else:  # malformed: a Quantity of another quantity type, an unknown unit, an unknown category
+            oqt = rng.choice(ctx.types_with_cat)
+            q = rng.choice([dict(t="quantity", cat=rng.choice(ctx.cats[oqt]), unit=rng.choice(ctx.units[oqt])),
+                            dict(t="quantity", cat=cat, unit="nope"), dict(t="quantity", cat="no such category", unit=u)])
+            if rng.random() < 0.3:
+                u = rng.choice([u, "nope"])
+        yield c_cfv(q, u, v, val)
+
+
 SIZES = {
-    "quick": dict(frac_new=8000, frac_ops=16000, fv=8000, str=12000, parse=16000, cff=12000, per_type=25, nvals=1, misc=8000),
-    "thorough": dict(frac_new=30000, frac_ops=60000, fv=30000, str=50000, parse=60000, cff=60000, per_type=None, nvals=2, misc=25000),
+    "quick": dict(frac_new=8000, frac_ops=16000, fv=8000, str=12000, parse=16000, cff=12000, per_type=25, nvals=1, misc=8000, cfv=8000),
+    "thorough": dict(frac_new=30000, frac_ops=60000, fv=30000, str=50000, parse=60000, cff=60000, per_type=None, nvals=2, misc=25000,
+                     cfv=50000),
 }
 
 
@@ -613,6 +663,7 @@ def _streams(ctx, salt, z):
     yield from s_cff(ctx.fresh_rng("C18cff" + salt), z["cff"])
     yield from s_fs_pairs(ctx, ctx.fresh_rng("C18pairs" + salt), z["per_type"], z["nvals"])
     yield from s_fs_misc(ctx, ctx.fresh_rng("C18misc" + salt), z["misc"])
+    yield from s_cfv(ctx, ctx.fresh_rng("C18cfv" + salt), z["cfv"])
 
 
 def cases(ctx):
@@ -752,6 +803,10 @@ def _run(c, ctx):
         a = _mk_fs(ctx, t["a"])
         a.CheckValidity()
         return dict(ok=None)
+    if op == "cfv":
+        q = t["q"]
+        arg = q["s"] if q["t"] == "qtype" else ObtainQuantity(q["unit"], q["cat"])
+        return dict(ok=_fv_out(FractionScalar.ConvertFractionValue(_fv(t["v"]), arg, t["from"], t["to"])))
     if op == "db_convert":
         r = _db(c, ctx).Convert(t["cq"], t["from"], t["to"], _fv(t["v"]))
         if not isinstance(r, FractionValue):
@@ -767,7 +822,7 @@ def _db(c, ctx):
 def impl(c, ctx):
     from barril.units.unit_database import UnitDatabase
 
-    push = c["op"].startswith(("fs_", "db_"))
+    push = c["op"].startswith(("fs_", "db_", "cfv"))
     if push:
         UnitDatabase.PushSingleton(_db(c, ctx))
     try:
@@ -900,7 +955,7 @@ def _agree_inner(c, io, mo, ctx):
             _note(ctx, "cff:equal by value (float drift of the loop)")
             return None
         return "CreateFromFloat differs: impl %s model %s" % (a, b)
-    if op in ("fs_convert", "db_convert"):
+    if op in ("fs_convert", "db_convert", "cfv"):
         if t.get("to") is None:
             return _cmp_fv(a, b, True, 0, 0, ctx, op)
         return _cmp_fv(a, b, False, qparse(mo.get("Mn", "0/1")), qparse(mo.get("Mf", "0/1")), ctx, op,
@@ -1010,7 +1065,7 @@ def oracle(c, ctx, report_known=False):
 def _oracle_pushed(c, ctx):
     from barril.units.unit_database import UnitDatabase
 
-    push = c["op"].startswith(("fs_", "db_"))
+    push = c["op"].startswith(("fs_", "db_", "cfv"))
     if push:
         UnitDatabase.PushSingleton(_db(c, ctx))
     try:
@@ -1164,6 +1219,34 @@ def _oracle(c, ctx):
                 return dict(clause="a FractionScalar converts like a Scalar holding float(value)", category=t.get("cat") or t.get("cq"),
                             value=_show_val(t["v"]), frm=t["from"], to=t["to"], got=g, want=want, known_class=kc)
             return None
+        if op == "cfv":
+            q = t["q"]
+            dbx = _db(c, ctx)
+            try:
+                cat = q["cat"] if q["t"] == "quantity" else dbx.GetDefaultCategory(t["from"])
+                src = ObtainQuantity(t["from"], cat)
+                arg = q["s"] if q["t"] == "qtype" else ObtainQuantity(q["unit"], q["cat"])
+                if dbx.GetQuantityType(t["to"]) != src.GetQuantityType():
+                    return None
+            except Exception:
+                return None  # not a conversion inside one quantity type
+            fv = _fv(t["v"])
+            want = Scalar.CreateWithQuantity(src, float(fv)).GetValue(t["to"])
+            zero = Scalar.CreateWithQuantity(src, 0.0).GetValue(t["to"])
+            unit_step = Scalar.CreateWithQuantity(src, 1.0).GetValue(t["to"]) - zero
+            try:
+                g = float(FractionScalar.ConvertFractionValue(fv, arg, t["from"], t["to"]))
+            except Exception as e:
+                return dict(clause="ConvertFractionValue raised on units of one quantity type", quantity=q, value=_show_val(t["v"]), frm=t["from"],
+                            to=t["to"], error=repr(e))
+            parts = abs(unit_step) * (abs(float(fv.number)) + abs(float(fv.fraction)))
+            if abs(g - want) > 1e-7 * (abs(want) + abs(zero) + abs(want - zero) + parts):
+                num = abs(fv.fraction.numerator * unit_step)
+                kc = "tiny-increment" if num <= 2e-8 else None
+                return dict(clause="ConvertFractionValue(value, quantity, from_unit, to_unit) converts from from_unit like a Scalar holding "
+                                   "float(value), whatever form or unit the quantity argument has", quantity=q, value=_show_val(t["v"]),
+                            frm=t["from"], to=t["to"], got=g, want=want, known_class=kc)
+            return None
         if op == "fs_order":
             a, b = t["a"], t["b"]
             qa, qb = ObtainQuantity(a["unit"], a["cat"]), ObtainQuantity(b["unit"], b["cat"])
@@ -1215,8 +1298,8 @@ def _oracle(c, ctx):
 
 
 SEARCH_SIZES = {
-    "quick": dict(frac_new=3000, frac_ops=6000, fv=3000, str=0, parse=0, cff=0, per_type=12, nvals=1, misc=3000),
-    "thorough": dict(frac_new=30000, frac_ops=60000, fv=30000, str=0, parse=0, cff=0, per_type=None, nvals=1, misc=30000),
+    "quick": dict(frac_new=3000, frac_ops=6000, fv=3000, str=0, parse=0, cff=0, per_type=12, nvals=1, misc=3000, cfv=6000),
+    "thorough": dict(frac_new=30000, frac_ops=60000, fv=30000, str=0, parse=0, cff=0, per_type=None, nvals=1, misc=30000, cfv=40000),
 }
 
 
@@ -1252,6 +1335,9 @@ def _simpler(c):
             kw = {k: w for k, w in t.items() if k != "db"}
             kw["v"] = v
             yield c_fs(op, db=t.get("db", "posc"), **kw)
+    elif op == "cfv":
+        for v in [dict(n=_I(2), x=[1, 2])] + SIMPLE_FV:
+            yield c_cfv(t["q"], t["from"], t["to"], v, db=t.get("db", "posc"))
     elif op in ("fs_order", "fs_valid", "fs_eq"):
         for va in SIMPLE_FV:
             for vb in SIMPLE_FV[:3]:
